@@ -38,6 +38,8 @@ def spellings(U, letters, mode):
         return tuple(np.str_(l) for l in letters)
     if mode == 5:
         return [U[l].name if i % 2 else l for i, l in enumerate(letters)]  # a list instead of a tuple
+    if mode in (6, 7):
+        return tuple([U[l], l, U[l].name][(i + mode - 6) % 3] for i, l in enumerate(letters))  # a Dimension object BEFORE letters / names
     return tuple([l, U[l].name, U[l]][i % 3] for i, l in enumerate(letters))
 
 
@@ -63,7 +65,7 @@ def do_source(rec, hub, U, all_letters, la, regimes, rng, tier):
         x = _Fresh()
         # sum_to: all ordered kept subsets, four spellings
         for keep in gen.ordered_subsets(la):
-            for mode in range(6 if reg == "tagged" else 1):
+            for mode in range(8 if reg == "tagged" else 1):
                 try:
                     if mode % 2:
                         x.sum_to(result_dims=spellings(U, keep, mode))
@@ -71,7 +73,7 @@ def do_source(rec, hub, U, all_letters, la, regimes, rng, tier):
                         x.sum_to(spellings(U, keep, mode))
                 except Exception:
                     pass
-            for mode in (0, 1, 2, 3):
+            for mode in (0, 1, 2, 3, 6, 7):
                 try:
                     x.sum_values_to(spellings(U, keep, mode))
                 except Exception:
@@ -79,7 +81,7 @@ def do_source(rec, hub, U, all_letters, la, regimes, rng, tier):
         # sum_over: all subsets (order irrelevant)
         for k in range(len(la) + 1):
             for over in itertools.combinations(la, k):
-                for mode in range(6 if reg == "tagged" else 1):
+                for mode in range(8 if reg == "tagged" else 1):
                     try:
                         if mode % 2:
                             x.sum_over(sum_over_dims=spellings(U, over, mode))
@@ -87,7 +89,7 @@ def do_source(rec, hub, U, all_letters, la, regimes, rng, tier):
                             x.sum_over(spellings(U, over, mode))
                     except Exception:
                         pass
-                for mode in (0, 1, 2, 3):
+                for mode in (0, 1, 2, 3, 6, 7):
                     try:
                         x.sum_values_over(spellings(U, over[::-1] if mode % 2 else over, mode))
                     except Exception:
@@ -233,7 +235,15 @@ def big_cases(rec, hub, rng, n_cases):
     fd = hub.fd
     for k in range(n_cases):
         U = gen.big_universe(fd, rng)
+        if k % 2 == 0:
+            # one LONG axis (several hundred steps, on both sides of 256 / 512) with few other items: long accumulations
+            n_long = int(rng.integers(257, 700))
+            U["b"] = fd.Dimension(letter="b", name=gen.NAMES["b"], items=[1500 + q for q in range(n_long)], dtype=int)
+            U["a"] = fd.Dimension(letter="a", name=gen.NAMES["a"], items=[f"a{q:03d}" for q in rng.permutation(int(rng.integers(3, 12)))], dtype=str)
+            U["c"] = fd.Dimension(letter="c", name=gen.NAMES["c"], items=[f"c{q}" for q in range(int(rng.integers(2, 8)))])
         la = tuple(str(q) for q in rng.permutation(list("abcd"))[: int(rng.integers(2, 5))])
+        if k % 2 == 0 and "b" not in la:
+            la = la[:-1] + ("b",) if rng.random() < 0.5 else ("b",) + la[1:]
         reg = "dyadic" if rng.random() < 0.5 else "real"
         v = gen.relayout(gen.big_values(rng, gen.shape_of(U, la), reg), rng)
 
@@ -243,17 +253,20 @@ def big_cases(rec, hub, rng, n_cases):
         keep = tuple(str(q) for q in rng.permutation(list(la))[: int(rng.integers(0, len(la)))])
         over = tuple(l for l in la if l not in keep)
         jobs = [("sum_to", keep, lambda x: x.sum_to(keep)), ("sum_over", over, lambda x: x.sum_over(over)), ("cumsum", la[-1], lambda x: x.cumsum(la[-1])), ("cumsum", la[0], lambda x: x.cumsum(la[0]))]
+        if "b" in la:
+            jobs.append(("cumsum", "b", lambda x: (x.cumsum("b", inplace=True), x)[1]))
         if over and len(over) < len(la):
             jobs.append(("shares", over, lambda x: x.get_shares_over(over)))
         for kind, arg, f in jobs:
-            x = mk()
+            x, x_in = mk(), mk()
             if kind == "shares":
                 x.values[...] = np.abs(x.values) + 1.0
+                x_in.values[...] = np.abs(x_in.values) + 1.0
             try:
                 r, e = f(x), None
             except Exception as ex:
                 r, e = None, ex
-            big.judge_reduce(rec, fd, kind, x, arg, r, e)
+            big.judge_reduce(rec, fd, kind, x_in, arg, r, e)  # x_in: the operand as it was (one job accumulates in place)
         # cast of a small part to the full set in another order
         src_l = tuple(la[:2][::-1])
         tgt_l = tuple(str(q) for q in rng.permutation(list(la)))
@@ -271,7 +284,7 @@ def run(rec, hub, tier, seed, shard, nshards, budget):
     red.register(hub)
     rec.require("large-arrays", 5)
     rec.set_case(driver="c07.big", seed=seed, tier=tier, shard=shard, nshards=nshards, idx=shard)
-    big_cases(rec, hub, case_nprng(seed, "c07.big", shard, 0), 3 if tier == "quick" else 6)
+    big_cases(rec, hub, case_nprng(seed, "c07.big", shard, 0), 4 if tier == "quick" else 8)
     if shard == 0:
         trace_equivalence(rec, hub, seed)
     rec.deciding.update({"cast-sum-back", "shares-times-totals"})
@@ -297,7 +310,7 @@ def replay(rec, hub, case):
     red.register(hub)
     if case["driver"] == "c07.big":
         rec.set_case(**case)
-        big_cases(rec, hub, case_nprng(case["seed"], "c07.big", case.get("shard", 0), 0), 3 if case.get("tier", "quick") == "quick" else 6)
+        big_cases(rec, hub, case_nprng(case["seed"], "c07.big", case.get("shard", 0), 0), 4 if case.get("tier", "quick") == "quick" else 8)
         return
     letters, patterns = plan(case.get("tier", "quick"))
     U = gen.universe(fd, dict(zip(letters, patterns[case["pattern"]])), rng=case_nprng(case["seed"], "c07.universe", 0, f"{case['idx']}.{case['pattern']}"))
